@@ -43,13 +43,24 @@ TABLE = {
     'C12': [('OpyVerif.Proofs.C12', 'Opy', None),
             ('OpyVerif.Generated.Skeletons', 'Opy.Gen', r'skel_GP_good|evalSites_ok')],
     'C13': [('OpyVerif.Proofs.C13', 'Opy', None),
+            ('OpyVerif.Proofs.C13code', 'Opy', None), ('OpyVerif.Proofs.Formulas', 'Opy', r'^d_(span|norm)$'),
+            ('OpyVerif.Generated.FormulasC13', 'Opy.Gen', None),
             ('OpyVerif.Proofs.C06', 'Opy', r'clipHyper')],
     'C14': [('OpyVerif.Proofs.C14', 'Opy.G', None),
             ('OpyVerif.Generated.Guards', 'Opy.Gen', None)],
-    'C15': [('OpyVerif.Proofs.C15', 'Opy', None)],
-    'C16': [('OpyVerif.Proofs.C16', 'Opy', None)],
-    'C17': [('OpyVerif.Proofs.C17', 'Opy', None)],
+    'C15': [('OpyVerif.Proofs.C15', 'Opy', None),
+            ('OpyVerif.Proofs.C15code', 'Opy', None), ('OpyVerif.Proofs.Formulas', 'Opy', r'^d_(aiwpso_w|ihs_PAR|ihs_bw|sa_T|fa_alpha|wca_dmax)$'),
+            ('OpyVerif.Generated.FormulasC15', 'Opy.Gen', None)],
+    'C16': [('OpyVerif.Proofs.C16', 'Opy', None),
+            ('OpyVerif.Proofs.C16code', 'Opy', None), ('OpyVerif.Proofs.Formulas', 'Opy', r'^(d_weightedBody|weighted_is_body_fold)$'),
+            ('OpyVerif.Generated.FormulasC16', 'Opy.Gen', None)],
+    'C17': [('OpyVerif.Proofs.C17', 'Opy', None),
+            ('OpyVerif.Proofs.C17code', 'Opy', None),
+            ('OpyVerif.Proofs.Formulas', 'Opy', r'^d_(ackley1|alpine1|alpine2|brown|chung_reynolds|cosine_mixture|csendes|deb1|deb2|exponential|quintic|rastringin|salomon|schumer_steiglitz|schwefel|sphere|styblinski_tang)$'),
+            ('OpyVerif.Generated.FormulasC17', 'Opy.Gen', None)],
     'C18': [('OpyVerif.Proofs.C18', 'Opy', None), ('OpyVerif.Proofs.C18real', 'Opy', None),
+            ('OpyVerif.Proofs.C18code', 'Opy', None), ('OpyVerif.Proofs.Formulas', 'Opy', r'^d_levy$'),
+            ('OpyVerif.Generated.FormulasC18', 'Opy.Gen', None),
             ('OpyVerif.Generated.Constants', 'Opy.Gen', r'tournamentSize_pos')],
     'C19': [('OpyVerif.Proofs.C19', 'Opy', None),
             ('OpyVerif.Proofs.C04', 'Opy', r'load_after_save|lookup_loadInto_saved')],
